@@ -122,6 +122,8 @@ def match_known(f, case, known):
     function on the same input is correct."""
     ids = {k["id"] for k in known}
     d = f.get("data", {})
+    if "C09-K3" in ids and f["bucket"].startswith("nonfinite/") and str(d.get("algo", "")).startswith("nesterov"):
+        return "C09-K3"
     if d.get("algo") not in ("nesterov-acc", "nesterov-prim-acc"):
         return None
     clause = f["bucket"].split("/")[0]
